@@ -285,6 +285,20 @@ func (s *Schema) control() (err error) {
 		return fmt.Errorf("%T %w: %s", s.object, ErrStructureChanged, err)
 	}
 
+	// every indexed field must have its index
+	for _, fd := range s.Fields {
+		if fd.Constraints.Index || fd.Constraints.Unique {
+			fi, ok := s.ObjectIndex.Fields[fd.Path]
+			if !ok {
+				return fmt.Errorf("%w: no index for field %s", ErrMissingObjIndex, fd.Path)
+			}
+			// the index must hold values of the type of the field
+			if fi.Name != fd.Path || !fd.castable() || fi.Cast != fd.cast() {
+				return fmt.Errorf("%w: index of field %s does not match its descriptor", ErrFieldDescModif, fd.Path)
+			}
+		}
+	}
+
 	// controlling index in memory
 	if err = s.ObjectIndex.control(); err != nil {
 		return
